@@ -762,12 +762,13 @@ def history_specs(tier):
                 ({"gen": ["sweep", "fixed", 0]}, 1, H_MODES, None),
                 ({"gen": ["long_reads", 65535, 70001]}, 1, ["lazy"], producers)]
     out = [({"gen": ["history", 0]}, 3, ["lazy"], None), ({"gen": ["history", 0]}, 2, ["eager", "chunked"], None)]
-    out += [({"gen": ["history", k]}, 2, H_MODES, None if k <= 2 else producers) for k in (1, 2, 3, 4, 5)]
+    out += [({"gen": ["history", 1]}, 2, ["lazy", "eager"], None), ({"gen": ["history", 1]}, 2, ["chunked"], producers),
+            ({"gen": ["history", 2]}, 2, H_MODES, None)]
+    out += [({"gen": ["history", k]}, 2, H_MODES, producers) for k in (3, 4)]
     out += [({"gen": ["sweep", kind, 0]}, 2, ["lazy", "eager"], producers) for kind in ("cigar1", "cigar2", "fixed", "flag")]
     out += [({"gen": ["sweep", "refs", 3]}, 2, H_MODES, producers), ({"gen": ["sweep", "ncigar", 60]}, 1, H_MODES, None),
-            ({"gen": ["sweep", "cigar3", 0]}, 1, ["lazy", "eager"], None),
             ({"gen": ["long_reads", 65535, 70001]}, 1, H_MODES, None), ({"gen": ["long_reads", 65536, 131074]}, 2, ["lazy"], producers)]
-    out += [({"gen": ["chunk", k, 6]}, 2, H_MODES, producers) for k in range(4)]
+    out += [({"gen": ["chunk", k, 6]}, 2, H_MODES, producers) for k in range(2)]
     return out
 
 
